@@ -146,6 +146,7 @@ pub fn generate(seed: u64, idx: u64, thorough: bool) -> Run {
             ops_seed: rng.next(),
             ops_per_thread: rng.range(2, 6) as usize,
             with_prepare: rng.chance(150),
+            fresh_module: rng.chance(400),
         })
     };
     Run {
@@ -425,18 +426,14 @@ impl CheckImpl for C20 {
         acc.log_unit(unit, uh);
     }
     fn secondary(&mut self, tier: Tier, seed: u64) -> (Vec<Viol>, Value) {
-        // Engine B costs minutes: on by default in the thorough tier only (VERIF_MIRI=1 / 0 overrides).
-        let want = match std::env::var("VERIF_MIRI").ok().as_deref() {
-            Some("1") => true,
-            Some("0") => false,
-            _ => tier == Tier::Thorough,
-        };
-        if !want {
-            return (Vec::new(), json!({"engine": "miri", "skipped": "quick tier (set VERIF_MIRI=1 to include); runs in the thorough tier"}));
+        // Engine B reaches what engine A cannot (preemption between two hook points, unsynchronised
+        // accesses that do not change bytes): a small pass runs in the quick tier too (VERIF_MIRI=0 skips it).
+        if std::env::var("VERIF_MIRI").ok().as_deref() == Some("0") {
+            return (Vec::new(), json!({"engine": "miri", "skipped": "VERIF_MIRI=0"}));
         }
         // (scenario, backend, n, number of Miri seeds)
         let jobs: Vec<(&str, &str, u32, u32)> = match tier {
-            Tier::Quick => vec![("eval", "FFT64Ref", 8, 2), ("eval", "NTT120Ref", 8, 2)],
+            Tier::Quick => vec![("eval", "FFT64Ref", 8, 3), ("shared", "FFT64Ref", 8, 3)],
             Tier::Thorough => vec![
                 ("eval", "FFT64Ref", 8, 16),
                 ("eval", "NTT120Ref", 8, 16),
@@ -452,12 +449,6 @@ impl CheckImpl for C20 {
         let mut runs = Vec::new();
         // build once (first job, one seed), then the rest in parallel
         let handles: Vec<_> = {
-            let (sc, be, n, _) = jobs[0];
-            let warm = miri_run(sc, be, n, first, first + 1);
-            runs.push(json!({"scenario": sc, "backend": be, "n": n, "seeds": format!("{first}..{}", first + 1), "ok": warm.0, "warmup": true}));
-            if !warm.0 {
-                viols.push(miri_viol(sc, be, n, first, first + 1, &warm.1));
-            }
             jobs.iter()
                 .map(|(sc, be, n, k)| {
                     let (sc, be, n, k) = (sc.to_string(), be.to_string(), *n, *k);
@@ -563,6 +554,7 @@ pub fn miri_main(args: &[String]) -> ! {
                 ops_seed: 0xABCD,
                 ops_per_thread: 2,
                 with_prepare: false,
+                fresh_module: true,
             };
             // engine B variant of SHARED: real concurrency, no scheduler: run through the scheduler-less path twice
             // (sequential reference) and once with plain std threads.
@@ -621,8 +613,10 @@ pub fn miri_run_args(argv: &[&str], from: u32, to: u32, ok_marker: &str) -> (boo
                 }
                 let interesting: Vec<&str> = se
                     .lines()
-                    .filter(|l| l.contains("error") || l.contains("Undefined Behavior") || l.contains("Data race") || l.contains("-->") || l.contains("MIRI-"))
-                    .take(12)
+                    .filter(|l| {
+                        l.starts_with("error") || l.contains("Undefined Behavior") || l.contains("Data race") || l.contains("panicked at") || l.contains("MIRI-")
+                    })
+                    .take(6)
                     .collect();
                 (false, format!("{} | {}", so.lines().filter(|l| l.contains("MIRI-") && !l.contains(": ok")).collect::<Vec<_>>().join(" "), interesting.join(" / ")))
             }
